@@ -1273,6 +1273,16 @@ def _r8_unpack(ctx):
                     if how == "plain" and isinstance(val, ast.Call) \
                             and isinstance(val.func, ast.Attribute) \
                             and val.func.attr in ("split", "rsplit"):
+                        starred = any(isinstance(e, ast.Starred)
+                                      for e in n.targets[0].elts)
+                        if starred and ntargets - 1 <= 1 and val.args \
+                                and not (isinstance(val.args[0], ast.Constant)
+                                         and val.args[0].value is None):
+                            run.ok("C07.R8", fi.qualname, src(n)[:70],
+                                   "starred unpacking needs %d field(s); "
+                                   "split with a separator yields at least "
+                                   "one" % (ntargets - 1), loc=m.loc(fi, n))
+                            continue
                         g = cfgmod.CFG(fi.node)
                         ok = False
                         why = "no dominating len() test"
